@@ -702,17 +702,17 @@ pub fn run(cx: &mut Ctx) {
     cx.assume("points within 1e-4 relative of a volume face are not asserted either way (f32 rounding decides)");
     cx.assume("an empty visible rectangle combined with perspective projection is excluded: Camera::perspective derives a zero aspect ratio, which perspective() documents as a panic");
     cx.assume("the first-person camera's right axis (up x horizontal heading, the axis translate() uses) is read as the view-space x axis (no roll)");
-    let n = cx.n(150_000, 10_000_000);
+    let n = cx.n(600_000, 20_000_000);
     cx.prop_check("perspective-volume", n, persp_case, |c, o| check_persp(c, o));
-    let n = cx.n(80_000, 5_000_000);
+    let n = cx.n(300_000, 10_000_000);
     cx.prop_check("orthographic-volume", n, ortho_case, |c, o| check_ortho(c, o));
-    let n = cx.n(60_000, 3_000_000);
+    let n = cx.n(200_000, 5_000_000);
     cx.prop_check("viewport-matrix", n, viewport_case, |c, o| check_viewport(c, o));
-    let n = cx.n(8_000, 200_000);
+    let n = cx.n(60_000, 1_000_000);
     cx.prop_check("camera-pixel", n, || cam_case(false), |c, o| check_cam(c, o));
-    let n = cx.n(8_000, 200_000);
+    let n = cx.n(60_000, 1_000_000);
     cx.prop_check("camera-confinement", n, || cam_case(true), |c, o| check_cam(c, o));
-    let n = cx.n(60_000, 3_000_000);
+    let n = cx.n(300_000, 10_000_000);
     cx.prop_check("first-person", n, fp_case, |c, o| check_fp(c, o));
 }
 
